@@ -72,9 +72,11 @@ Arguments CFail {LV}.
 Arguments CAbort {LV}.
 
 (* number of iterations of "for(i=first, j=0; j<(unsigned)amount; i+=step, j++)"
-   after "if (amount == -1) amount = (width-first+step-1)/step;" (unsigned arithmetic) *)
+   after the resolution of the "to the end" amount (unsigned arithmetic) *)
 Definition loop_count (r : range) (w : Z) : Z :=
-  if r_amount r =? -1 then u32 (u32 (w - r_first r + r_step r - 1) / u32 (r_step r))
+  if r_amount r =? -1 then
+    (* amount = (unsigned) first < width ? (width-first+step-1)/step : 0;   (fix 01261ca) *)
+    if u32 (r_first r) <? w then u32 (u32 (w - r_first r + r_step r - 1) / u32 (r_step r)) else 0
   else u32 (r_amount r).
 
 Inductive lres := LSets (s : sets) | LIgnored | LAbort | LHuge | LUnmodelled.
@@ -178,10 +180,22 @@ Section Denote.
     | CFail | CAbort => empty2
     end.
 
-  (* physical indexes, forms X and X-Y: the first object carrying each OS index of the interval *)
-  Definition first_with_os (ins : list cobj) (o : cobj) (k : nat) : bool :=
-    negb (existsb (fun o' => (co_os o' =? co_os o)%N) (firstn k ins)).
-  Definition sel_os (r : range) (os : Z) : bool := (r_first r <=? os) && (os <? r_first r + r_amount r).
+  (* physical indexes, forms X and X-Y (hwloc(7): "the first object matching the given index is used"):
+     for every number of the interval [first, first+amount), the first object inside carrying that OS index *)
+  Definition interval (r : range) : list Z := map (fun k => r_first r + Z.of_nat k) (seq 0 (Z.to_nat (r_amount r))).
+  Fixpoint denote_phys (c : chain LV) (lv : LV) (rcs rns : bset) : sets :=
+    match c with
+    | CEnd r =>
+        let ins := inside_objs rcs rns (objs lv) in
+        big_union (fun j => match get_obj false ins j with Some o => osets o | None => empty2 end) (interval r)
+    | CNext r lv' rest =>
+        let ins := inside_objs rcs rns (objs lv) in
+        big_union (fun j => match get_obj false ins j with
+                            | Some o => denote_phys rest lv' (co_cs o) (co_nds o)
+                            | None => empty2
+                            end) (interval r)
+    | CFail | CAbort => empty2
+    end.
 End Denote.
 
 (* the operators of a location list *)
@@ -241,6 +255,7 @@ Definition parse_range (s : list N) (p : N) : res (option range * option N) :=
         let* c2 := rdr str e2 in
         if negb (c2 =? 0) then Ok (None, dot)
         else if e2 =? e + 1 then Ok (Some (mk_range first (-1) false), dot)
+        else if (last <? first)%Z then Ok (None, dot)              (* "last index is lower than first index" (fix 01261ca) *)
         else Ok (Some (mk_range first (last - first + 1) false), dot)
       else if ce =? C_COLON then
         let* r2 := strtol str (e + 1) 10 in
@@ -248,6 +263,7 @@ Definition parse_range (s : list N) (p : N) : res (option range * option N) :=
         let* c2 := rdr str e2 in
         if negb (c2 =? 0) then Ok (None, dot)
         else if e2 =? e + 1 then Ok (None, dot)
+        else if (amount <? 0)%Z then Ok (None, dot)                 (* "invalid negative width" (fix 01261ca) *)
         else Ok (Some (mk_range first amount true), dot)
       else if negb (ce =? 0) then Ok (None, dot)
       else Ok (Some (mk_range first 1 false), dot).
